@@ -13,11 +13,16 @@ EXTENDS Props
 CONSTANTS MaxLines, Mode, MaxErrs
 Menu == JsonDeserialize("menu.json")
 
-Init == /\ vLines \in { [j \in 1..Len(c) |-> Menu[c[j]]] : c \in UNION { [1..m -> 1..Len(Menu)] : m \in 0..MaxLines } }
+VARIABLE vToks      \* history: the tokens delivered to the builder (a function of the input; adds no states)
+mvars == <<vLines, vLine, vPs, vToks>>
+
+Init == /\ vToks = <<>>
+        /\ vLines \in { [j \in 1..Len(c) |-> Menu[c[j]]] : c \in UNION { [1..m -> 1..Len(Menu)] : m \in 0..MaxLines } }
         /\ vLine = 1
         /\ vPs = InitParse("en", 0, CapOf(Mode))
-Next == GParseLine
-Spec == Init /\ [][Next]_gvars
+Next == /\ GParseLine
+        /\ vToks' = IF vPs'.count = vPs.count + 1 THEN Append(vToks, Delivered(FiredAt(vPs, vLines, vLine).tok, vLine, vPs.ms)) ELSE vToks
+Spec == Init /\ [][Next]_mvars
 
 MenuIndex(l) == CHOOSE k \in 1..Len(Menu) : Menu[k] = l
 Emit == vPs.done => PrintT(<<"BEH", ToJson([
@@ -27,5 +32,29 @@ Emit == vPs.done => PrintT(<<"BEH", ToJson([
             ast |-> IF Rejected(vPs) THEN <<>> ELSE <<DocumentOf(vPs)>>,
             pickles |-> IF Rejected(vPs) THEN <<>> ELSE Compile(DocumentOf(vPs), <<117>>, NidAfter(vPs)) ])>>)
 Bound == Len(vPs.bs.errs) <= MaxErrs
+
+(***************************************************************************)
+(* The property predicates on the specification's own results.             *)
+(***************************************************************************)
+Acc == vPs.done /\ ~Rejected(vPs)
+SDoc == DocumentOf(vPs)
+SPk == Compile(SDoc, <<117>>, NidAfter(vPs))
+Inv_C01 == vPs.done => P_C01_Outcome(vPs.bs.errs, vPs.bs.cap)
+Inv_C03 == Acc => LET ix == Index(SDoc) IN P_C03_Once(vToks, SDoc, ix) /\ P_C03_Order(SDoc, ix) /\ P_C03_Text(vLines, SDoc, ix)
+                                           /\ P_C03_Desc(vLines, vToks, SDoc, ix) /\ P_C03_Within(vLines, SDoc, ix)
+Inv_C04 == /\ (Acc => P_C04_ReadBack(vLines, SDoc, Index(SDoc)))
+           /\ (vPs.done => P_C04_ErrLoc(vLines, vPs.bs.errs))
+Inv_C05 == Acc => P_C05_Doc(vLines, SDoc, DialectInForce(vLines, "en"), Index(SDoc))
+Inv_C06 == Acc => P_C06(SPk, EPs(SDoc, <<117>>))
+Inv_C07 == Acc => P_C07(SPk, EPs(SDoc, <<117>>))
+Inv_C08 == Acc => P_C08(SPk, EPs(SDoc, <<117>>))
+Inv_C09 == Acc => P_C09(SPk, EPs(SDoc, <<117>>))
+Inv_C10 == Acc => P_C10(SPk, EPs(SDoc, <<117>>))
+Inv_C11 == Acc => P_C11_Canonical(SDoc, SPk, 0) /\ P_C11_Refs(SDoc, SPk, Index(SDoc))
+Inv_C12 == Acc => P_C12_Cells(vLines, SDoc, Index(SDoc)) /\ P_C12_Rect(SDoc, Index(SDoc))
+Inv_C13 == Acc => P_C13_DocStrings(vLines, vToks, SDoc, Index(SDoc))
+Inv_C14 == vPs.done => P_C14_Once(vPs.bs.errs)
+Inv_C18 == /\ (Acc => P_C18_Accepted(vLines, vToks))
+           /\ (vPs.done => P_C18_Partition(vLines, vToks, vPs.bs.errs, vPs.bs.cap))
 Constraint == Emit /\ Bound
 =============================================================================
